@@ -148,6 +148,8 @@ pub struct Script {
     pub processing_delay: u16,
     pub restart_delay: Option<RestartDelay>,
     pub write_time_result: Result<(), RequestError>,
+    /// an application that honestly drops NEED_TIME once its clock was set
+    pub clear_need_time_on_write: bool,
     pub freeze_result: Result<(), RequestError>,
     pub support_dead_bands: bool,
     pub attr_ok: bool,
@@ -166,6 +168,7 @@ impl Default for Script {
             processing_delay: 0,
             restart_delay: None,
             write_time_result: Ok(()),
+            clear_need_time_on_write: false,
             freeze_result: Ok(()),
             support_dead_bands: true,
             attr_ok: true,
@@ -244,7 +247,12 @@ impl OutstationApplication for Mock {
     }
     fn write_absolute_time(&mut self, time: Timestamp) -> Result<(), RequestError> {
         self.push(Ev::WriteAbsTime(time.raw_value()));
-        self.script(|s| s.write_time_result)
+        self.script(|s| {
+            if s.clear_need_time_on_write && s.write_time_result.is_ok() {
+                s.app_iin.need_time = false;
+            }
+            s.write_time_result
+        })
     }
     fn get_application_iin(&self) -> ApplicationIin {
         self.script(|s| s.app_iin)
